@@ -117,6 +117,9 @@ pub fn replay_print(rep: &mut Report, rec: &J) {
 		rep.mismatch("C13.layout", json!({"what": "inline_print differs from print_with(inline)", "vector": rec}));
 	}
 	// C04: the real output (whatever it is) re-parses to the value with the real strict parser
+	if rep.counters["print_vectors"] % 4 == 0 {
+		crate::parsev::disturb();
+	}
 	match guarded(|| Value::parse_str(&got)) {
 		Ok(Ok((back, _))) => {
 			if back != v {
@@ -393,6 +396,9 @@ pub fn record(args: &Args) {
 			}
 		};
 		let text = guarded(|| v.print_with(o.clone()).to_string());
+		if i % 3 == 0 {
+			crate::parsev::disturb();
+		}
 		let rec = match text {
 			Ok(t) => {
 				let back = match guarded(|| Value::parse_str(&t)) {
